@@ -786,7 +786,9 @@ class DirectoryRecord:
         index = bisect.bisect_left(self.children, child)
         if index != len(self.children) and self.children[index].file_ident == child.file_ident:
             if not self.children[index].is_associated_file() and not child.is_associated_file():
-                if not (self.rock_ridge is not None and self.file_identifier() == b'RR_MOVED'):
+                # Only an image that is being parsed may hold equal names in its
+                # relocation directory; new entries are refused there as anywhere.
+                if check_overflow or not (self.rock_ridge is not None and self.file_identifier() == b'RR_MOVED'):
                     if not allow_duplicate:
                         raise pycdlibexception.PyCdlibInvalidInput('Failed adding duplicate name to parent')
 
